@@ -177,6 +177,11 @@ def axis_values(start, step, count):
 def line_axis(draw, count, small=True):
     """(start, step) for a line axis; ascending/descending, negative, non-unit steps."""
     step = draw(st.sampled_from([1, 1, 2, 3, 5, 7, -1, -2, -4]))
+    if small and count >= 2 and draw(st.integers(0, 7)) == 0:
+        # an axis that carries the label 0 somewhere after its first position (negative numbering, or a
+        # descending axis running down to or through 0): 0 is then a legitimate bound / coordinate
+        k = draw(st.integers(1, count - 1))
+        return -step * k, step
     if small:
         # mostly survey-like numbers; one in five large (labels of 1e5..1e7 and the int32 end), where a
         # tolerance-based or float32 label lookup would start to confuse neighbouring lines
